@@ -15,6 +15,8 @@ def run(tier, seed):
     r = c01.explore("C04", {"C01"}, [("window", 1.0)], tier, seed, 900, 40000, ASSUMPTIONS)
     for v in r.violations:
         v["property"] = "C04"
+    # defects of the relational core that are listed for C01 show up in window programs too
+    r.borrow_findings("C01")
     return r
 
 
